@@ -16,7 +16,7 @@ EXTENDS Expr, TLC, Json
 
 CONSTANTS MaxDepth,      \* depth of the enumerated ASTs
           FullFrom,      \* levels < FullFrom are expanded completely, deeper ones only over Core leaves
-          SampleMod,     \* at the last expansion keep spines with Checksum % SampleMod = Seed % SampleMod
+          SampleMod,     \* at the last expansion keep the spines of ONE checksum class modulo SampleMod (Seed picks it)
           Seed
 
 VARIABLES ast, depth
@@ -87,10 +87,13 @@ Checksum(n) ==
      [] n.k = "if"    -> Checksum(n.c) * 11 + Checksum(n.a) * 3 + Checksum(n.b)
      [] OTHER         -> SumSeq(n.xs) + 1) % 65521
 
+\* spread the checksum over 0..65520 (65521 is prime) before reducing it modulo SampleMod
+Scramble(h) == (((h * 30011) % 65521) * 177 + h) % 65521
+
 Expand(a, d) ==                      \* is `a` (at depth d) used as a spine for depth d+1 ?
   /\ d < MaxDepth
   /\ d < FullFrom \/ LeavesOf(a) \subseteq Core
-  /\ (d = MaxDepth - 1 /\ d >= FullFrom /\ SampleMod > 1) => Checksum(a) % SampleMod = Seed % SampleMod
+  /\ (d = MaxDepth - 1 /\ SampleMod > 1) => Scramble(Checksum(a)) % SampleMod = Seed % SampleMod
 
 Init == ast \in Leaves /\ depth = 0
 Grow == /\ Expand(ast, depth)
